@@ -83,7 +83,7 @@ def gen_route(rng, L):
         r['post'] = rng.choice([0, 1, 5, 8])
         r['how'] = rng.choice(['slice', 'ctor-of-slice', 'copy', 'deepcopy-ish', 'cut', 'read'])
     elif fam == 'iterable':
-        r['how'] = rng.choice(['list', 'tuple', 'gen', 'bitarray', 'strings'])
+        r['how'] = rng.choice(['list', 'tuple', 'gen', 'bitarray', 'strings', 'bitarray-little', 'bitarray=little', 'frozenbitarray'])
     elif fam == 'auto-bytes':
         r['how'] = rng.choice(['bytes', 'bytearray', 'memoryview', 'BytesIO'])
     elif fam == 'array':
@@ -100,6 +100,8 @@ def gen_route(rng, L):
 def family_key(r, L, filebits=None):
     """Route class used in mechanism keys (predicates over the route's inputs only)."""
     fam = r['family']
+    if fam == 'iterable' and 'little' in str(r.get('how')):
+        return 'bitarray-little-endian'
     if fam in ('file', 'filehandle'):
         off = 'offset0' if not r['pre'] else ('offset-aligned' if r['pre'] % 8 == 0 else 'offset-unaligned')
         lm = r['lenmode']
@@ -227,6 +229,12 @@ def build(cls, bits, r, files):
             return cls((c == '1' for c in bits)), bits
         if how == 'bitarray':
             return cls(bitarray.bitarray(bits)), bits
+        if how == 'bitarray-little':
+            return cls(bitarray.bitarray(bits, endian='little')), bits
+        if how == 'bitarray=little':
+            return cls(bitarray=bitarray.bitarray('1' + bits, endian='little'), offset=1), bits
+        if how == 'frozenbitarray':
+            return cls(bitarray.frozenbitarray(bits)), bits
         return cls(['x' if c == '1' else '' for c in bits]), bits
     if fam == 'auto-bytes':
         if L % 8:
